@@ -67,6 +67,8 @@ DTToZonedCells == {[k |-> "PlainDateTime.toZonedOffset", n |-> c[1], t |-> c[2],
 \* the same wall-clock readings as zoned strings with their offset written out, under every offset option (the offset is the
 \* zone's own): the instant must lie within the limits, and under prefer / reject also the wall date within 10^8 days of the epoch
 ZStrCells == {[k |-> "ZonedDateTime.fromStrOffset", n |-> c.n, t |-> c.t, off |-> c.off, oo |-> oo] : c \in DTToZonedCells, oo \in {"use", "reject", "prefer", "ignore"}}
+\* date-only zoned strings in fixed-offset zones (start of day = midnight minus the offset): the instant must lie within the limits
+ZDateOnlyCells == {[k |-> "ZonedDateTime.fromDateOnlyStr", n |-> n, off |-> off] : n \in {MinDay, MinDay + 1, MinDay + 2, MaxDay - 1, MaxDay, 0}, off \in {60, -60, 0, 840, -720}}
 \* PlainDate.toZonedDateTime({timeZone: UTC, plainTime}): the combined date-time must be within the date-time limits (step 6.c) and its
 \* instant within the instant limits; tt = "none" is the start of the day
 DateToZonedCells == {[k |-> "PlainDate.toZonedUtc", n |-> n, tt |-> tt] : n \in {MinDay, MinDay + 1, MaxDay - 1, MaxDay, 0}, tt \in {"none", "midnight", "t1", "last"}}
@@ -105,7 +107,7 @@ FFCells == UNION {{[k |-> kk, ty |-> ty, v |-> v, frac |-> FALSE] : kk \in PrimK
 \* Default::default() of the date types is a date (the epoch day), not the all-zero record
 DefaultCells == {[k |-> "Default.date", ty |-> ty] : ty \in {"PlainDate", "PlainDateTime", "PlainYearMonth", "PlainMonthDay"}}
 Cells == EpochFromCells \cup FFCells \cup DefaultCells \cup DateNewCells \cup DateAddCells \cup DateAddMonthCells \cup DateAddWeekCells \cup DTNewCells \cup DTAddCells \cup DTRoundCells \cup DateToDTCells \cup DateEpochCells \cup DateToZonedCells \cup DateConstrainCells \cup DTToZonedCells
-         \cup DateConvCells \cup StrCells \cup ZStrCells \cup ZdtCells \cup InstNewCells \cup InstAddCellsOK \cup InstMsCells \cup InstRoundCellsOK \cup DurAddCells
+         \cup DateConvCells \cup StrCells \cup ZStrCells \cup ZDateOnlyCells \cup ZdtCells \cup InstNewCells \cup InstAddCellsOK \cup InstMsCells \cup InstRoundCellsOK \cup DurAddCells
 
 \* the call (op, args) and its expected outcome
 Call(c) ==
@@ -133,6 +135,9 @@ Call(c) ==
                   ELSE LET m == IF c.d.m < 1 THEN 1 ELSE IF c.d.m > 12 THEN 12 ELSE c.d.m
                            dd == IF c.d.d < 1 THEN 1 ELSE IF c.d.d > DIM(c.d.y, m) THEN DIM(c.d.y, m) ELSE c.d.d
                        IN IF InDateRange(DFC(Date(c.d.y, m, dd))) THEN Ok(Date(c.d.y, m, dd)) ELSE ErrRange]
+    [] c.k = "ZonedDateTime.fromDateOnlyStr" ->
+         LET ns == Sub(Mul(DayNsBig, FromInt(c.n)), K9(FromInt(c.off * 60)))
+         IN [op |-> c.k, args |-> [d |-> CivilFromDays(c.n), off |-> c.off], out |-> IF AbsI(c.n) > 100000000 \/ ~InInstantRange(ns) THEN ErrRange ELSE Ok(ns)]
     [] c.k = "ZonedDateTime.fromStrOffset" ->
          LET x == DT(CivilFromDays(c.n), c.t)
              ns == Sub(Add(Mul(DayNsBig, FromInt(c.n)), TimeNsOf(c.t)), K9(FromInt(c.off * 60)))
